@@ -78,7 +78,7 @@ ReadShort(off, n, res) == ShortReadOk(off, n, res) /\ UNCHANGED <<data, dirty, a
 
 (* ---------------- stored chunks resolve to data ---------------- *)
 (* S: set of [id, off, size, mtime]; B: function id -> bytes; definitions of C17 *)
-CO(B) == INSTANCE ChunkOverlay WITH data <- B, top <- <<>>, fsize <- 0, hist <- <<>>,
+CO(B) == INSTANCE ChunkOverlay WITH data <- B, top <- <<>>, fsize <- 0, hist <- <<>>, rd <- <<>>, old <- <<>>,
                                     Offs <- {}, Sizes <- {}, Mtimes <- {}, MaxChunks <- 0, Canon <- FALSE, MaxOps <- 0
 ResolvesTo(S, B, fattr, d) ==
   /\ \A c \in S : Len(B[c.id]) >= c.size /\ c.size > 0
